@@ -2,21 +2,45 @@ package type1
 
 import "math"
 
-// C10 K2: advance widths.  For every finite width w (|w| < 2^31) the written charstring decodes
-// to Round(w), and writing that again changes nothing (idempotence of the quantisation).
+// C10 K2: advance widths through the writer's own charstring production (Font.encodeCharstrings:
+// rounding, encoding, charstring encryption).  For every finite width (|w| < 2^31) the written
+// charstring decodes to Round(w) (half away from zero, whole units), and writing the re-read
+// glyph again gives the same bytes (idempotence of the quantisation).
 func VP_C10_width() {
+	vpUnwind(200)
 	w := vpFloat64("w")
 	vpAssume(w > -2147483000 && w < 2147483000)
-	g := &Glyph{WidthX: w}
-	wx := int32(math.Round(g.WidthX)) // what Font.encodeCharstrings passes
-	code := g.encodeCharString(wx, 0)
+	wy := 0.0
+	if vpChoose("vertical", 2) == 1 {
+		wy = vpFloat64("wy")
+		vpAssume(wy > -2147483000 && wy < 2147483000)
+	}
+	f := &Font{Glyphs: map[string]*Glyph{"g": {WidthX: w, WidthY: wy}}}
+	obf := f.encodeCharstrings()["g"]
+	vpAssert("charstring-written", len(obf) > 4)
+	if len(obf) <= 4 {
+		return
+	}
+	code := deobfuscateCharstring([]byte(obf), 4)
 	back, err := (&decodeInfo{}).decodeCharString(code, "g")
 	vpAssert("decodes", err == nil && back != nil)
 	if err != nil || back == nil {
 		return
 	}
-	vpAssert("width-is-rounded-to-whole-units", back.WidthX == math.Round(w))
-	wx2 := int32(math.Round(back.WidthX))
-	vpAssert("second-cycle-changes-nothing", wx2 == wx)
+	vpAssert("width-is-rounded-to-whole-units", back.WidthX == math.Round(w) && back.WidthY == math.Round(wy))
+	f2 := &Font{Glyphs: map[string]*Glyph{"g": back}}
+	obf2 := f2.encodeCharstrings()["g"]
+	// (compared after decryption: the cipher is a bijection for a fixed 4-byte prefix, and the
+	// prefix search depends on the prefix alone)
+	code2 := deobfuscateCharstring([]byte(obf2), 4)
+	same := len(code2) == len(code) && obf2[:4] == obf[:4]
+	if same {
+		for i := 0; i < len(code); i++ {
+			if code[i] != code2[i] {
+				same = false
+			}
+		}
+	}
+	vpAssert("second-cycle-changes-nothing", same)
 	vpCover("done")
 }
